@@ -118,7 +118,7 @@ def pair_cases(tier, routes=ROUTES, mult4=False, api_labels=True, sweep_pot='pol
                 out.append(dict(route=route, cutoff=cutoff, nr=nr, pots=[['Ca', 'F', a_], ['Ca', 'O', b_], ['O', 'F', a_]]))
     # (4c) very large output (several MiB): 15 pairs on a 12 000-row grid
     big_names = [n for n in names if n in ('buck', 'morse', 'lj', 'polynomial', 'hbnd')] or names[:3]
-    sp5 = ['A', 'B', 'C', 'D', 'E']
+    sp5 = ['Np', 'Kr', 'Xe', 'Ar', 'Ne']          # (15 two-letter pair labels: any one-line summary of them exceeds 80 characters)
     pairs15 = [(sp5[i], sp5[j]) for i in range(5) for j in range(i, 5)]
     for route in (routes if tier != 'quick' else routes[:1] + routes[-1:]):
         out.append(dict(route=route, cutoff=10.0, nr=12000, pots=[[a_, b_, big_names[k % len(big_names)]] for k, (a_, b_) in enumerate(pairs15)], big=True))
